@@ -728,6 +728,9 @@ def main():
         bytes_case(H('0080') + H('0006') + H('008000050cc1') + H('0003') + H('0cc141'), kind='corpus')     # the same, nested
         bytes_case(H('0080') + H('0002') + H('0000') + H('00') + H('020000'), 0, 7, kind='corpus')         # 1 byte length field
         bytes_case(H('0080000400800000'), kind='corpus')                                                   # AGF in AGF
+        bytes_case(H('008000020080'), kind='corpus')                                                       # EMPTY AGF in AGF (seeded C11-2)
+        bytes_case(H('00800002000000020080'), kind='corpus')                                               # ... as last member
+        bytes_case(H('008000020080000480c14142'), kind='corpus')                                           # ... as first member
         for n in (2, 3, 100, 400, 496, 497, 498, 499, 520, 540):
             bytes_case(nest_agf(n), kind='corpus-nest')
         bytes_case(H('004001011302020003'), kind='corpus')
@@ -823,6 +826,25 @@ def main():
                 bytes_case(a + post, 0, len(a) + rng.choice([0, 1]), kind='agf-window')
             if rng.random() < 0.15:
                 bytes_case(agf_of([a] + subs[:1]), kind='agf-nested')
+        # every PDU type as a bare 2-byte header (and header + short tails) as a member of an aggregate,
+        # at first / middle / last / only position and one level deeper (member of a nested aggregate)
+        sym, uim = b'\x00\x00', b'\x80\xc1AB'
+        mtails = [b'', b'\x00', b'\x10', b'\x00\x00', b'\x05\x01\x00', b'\x00\x02\x00\x80', b'\x06\x00',
+                  b'\x12\x34\x56\x78']
+        for pt in range(16):
+            for dsap, ssap in ((0, 0), (1, 1), (32, 16), (63, 63)):
+                hd = bytes([(dsap << 2) | (pt >> 2), ((pt & 3) << 6) | ssap])
+                for t in (mtails if (dsap, ssap) != (63, 63) else mtails[:2]):
+                    m = hd + t
+                    for subs in ([m], [m, uim], [sym, m, uim], [sym, m], [m, m]):
+                        bytes_case(agf_of(subs), kind='agf-member')
+                    bytes_case(agf_of([agf_of([m])]), kind='agf-member-nested')
+                    bytes_case(agf_of([sym, agf_of([m, uim])]), kind='agf-member-nested')
+                    bytes_case(agf_of([sym, agf_of([sym, m]), uim]), kind='agf-member-nested')
+        # aggregates whose members are aggregates with 0 / 1 members (the empty one is exactly a header)
+        for inner in (b'\x00\x80', agf_of([sym]), agf_of([b'\x00\x80'])):
+            for subs in ([inner], [inner, uim], [sym, inner], [sym, inner, uim], [inner, inner]):
+                bytes_case(agf_of(subs), kind='agf-nested')
         for n in ([1, 2, 5, 50, 300, 495, 500, 543] if quick else list(range(1, 40)) + list(range(480, 545, 3))):
             bytes_case(nest_agf(n, rng.choice(small)), kind='agf-nested')
         # random strings up to 2200 bytes, biased to the interesting headers
